@@ -38,11 +38,15 @@ func newStore(w *World) *Store {
 	return &Store{w: w, cur: map[uint][]byte{}}
 }
 
-// Content returns the immutable current content.
+// Content returns a copy of the current content.
 func (s *Store) Content() map[uint][]byte {
 	s.w.Mu.Lock()
 	defer s.w.Mu.Unlock()
-	return s.cur
+	c := make(map[uint][]byte, len(s.cur))
+	for k, v := range s.cur {
+		c[k] = v
+	}
+	return c
 }
 
 // Plant replaces the content.
@@ -120,12 +124,16 @@ func (s *Store) Save(key uint, value net.Buffers) error {
 		s.OnSave(key, flat)
 	}
 	if !fail {
-		n := make(map[uint][]byte, len(s.cur)+1)
-		for k, v := range s.cur {
-			n[k] = v
+		if s.w.TakeSnaps {
+			n := make(map[uint][]byte, len(s.cur)+1)
+			for k, v := range s.cur {
+				n[k] = v
+			}
+			n[key] = flat
+			s.cur = n
+		} else {
+			s.cur[key] = flat
 		}
-		n[key] = flat
-		s.cur = n
 		s.Version++
 	}
 	s.end("save", key, flat, fail, call)
@@ -143,13 +151,17 @@ func (s *Store) Delete(key uint) error {
 	fail, call := s.begin("delete", key, nil)
 	if !fail {
 		if _, ok := s.cur[key]; ok {
-			n := make(map[uint][]byte, len(s.cur))
-			for k, v := range s.cur {
-				if k != key {
-					n[k] = v
+			if s.w.TakeSnaps {
+				n := make(map[uint][]byte, len(s.cur))
+				for k, v := range s.cur {
+					if k != key {
+						n[k] = v
+					}
 				}
+				s.cur = n
+			} else {
+				delete(s.cur, key)
 			}
-			s.cur = n
 			s.Version++
 		}
 	}
